@@ -226,6 +226,8 @@ def run(ctx):
                             continue
                         if variant == "grid" and rnd.random() < 0.3:
                             E.retype(ctx, fl, rnd, engine)
+                        if rnd.random() < 0.25 and E.rejected_edit(rnd, engine):
+                            ctx.hit("workload:a rule was given a text that the parser rejected")
                         try:
                             way = rnd.choice(["to_string", "to_string", "str", "Op.to_fll", "file", "separator"])
                             if way == "str":
@@ -295,6 +297,7 @@ def run(ctx):
         probe.report(ctx)
         ctx.extra["printer_parser_pairs_with_values"] = sorted(f"{c}.{n}" for c, n in mon.pairs)
         reach.report(ctx)
+    ctx.require("workload:a rule was given a text that the parser rejected")
     ctx.require("hook:FllExporter.engine", "entry:str", "entry:file", "entry:separator", "entry:Op.to_fll", "hook:FllImporter.from_string", "compare:text fixed point", "compare:structure", "compare:normalisation fixed point", "compare:identical outputs", "event:import accepted", "event:re-export after a weight change", "event:re-export under other decimals", "workload:exotic configuration")
     for d in decs:
         ctx.require(f"decimals:{d}")
